@@ -51,9 +51,13 @@ theorem applyW_dels_nil (l : List Bytes) : applyW [] (l.map WOp.del) = [] := by
   | nil => rfl
   | cons k r ih => simpa [applyW, DB.del] using ih
 
-/-- a write that stores `x` under a key ending in `H x` -/
-def ContentPut (H : Bytes → Bytes) : WOp → Prop
-  | .put k x => ∃ q, k = rowKey q (H x)
+/-- `H` has no collision among the strings of `Dom` -/
+def InjOn (H : Bytes → Bytes) (Dom : Bytes → Prop) : Prop :=
+  ∀ a b, Dom a → Dom b → H a = H b → a = b
+
+/-- a write that stores `x ∈ Dom` under a key ending in `H x` -/
+def ContentPut (H : Bytes → Bytes) (Dom : Bytes → Prop) : WOp → Prop
+  | .put k x => (∃ q, k = rowKey q (H x)) ∧ Dom x
   | .del _ => False
 
 theorem rowKey_inj_hash {H : Bytes → Bytes} (hlen : ∀ x, (H x).length = 32)
@@ -64,38 +68,38 @@ theorem rowKey_inj_hash {H : Bytes → Bytes} (hlen : ∀ x, (H x).length = 32)
   exact List.append_inj_right' h (by simp [hlen])
 
 /-- content-addressed writes never change what is stored under a key -/
-theorem find_applyW_keep {H : Bytes → Bytes} (hlen : ∀ x, (H x).length = 32)
-    (hinj : ∀ a b, H a = H b → a = b) (w : List WOp) (hw : ∀ op ∈ w, ContentPut H op) :
-    ∀ (db : DB) (q : Nibs) (x : Bytes), db.find (rowKey q (H x)) = some x →
+theorem find_applyW_keep {H : Bytes → Bytes} {Dom : Bytes → Prop} (hlen : ∀ x, (H x).length = 32)
+    (hinj : InjOn H Dom) (w : List WOp) (hw : ∀ op ∈ w, ContentPut H Dom op) :
+    ∀ (db : DB) (q : Nibs) (x : Bytes), Dom x → db.find (rowKey q (H x)) = some x →
       (applyW db w).find (rowKey q (H x)) = some x := by
   induction w with
-  | nil => intro db q x h; exact h
+  | nil => intro db q x _ h; exact h
   | cons op r ih =>
-    intro db q x h
-    have hr : ∀ op ∈ r, ContentPut H op := fun o ho => hw o (List.mem_cons_of_mem _ ho)
+    intro db q x hx h
+    have hr : ∀ op ∈ r, ContentPut H Dom op := fun o ho => hw o (List.mem_cons_of_mem _ ho)
     cases op with
     | del k => exact absurd (hw _ (List.mem_cons_self ..)) (by simp [ContentPut])
     | put k y =>
-      obtain ⟨q', hk⟩ := hw _ (List.mem_cons_self ..)
+      obtain ⟨⟨q', hk⟩, hy⟩ := hw _ (List.mem_cons_self ..)
       simp only [applyW]
-      apply ih hr
+      apply ih hr _ _ _ hx
       rw [find_put]
       by_cases he : rowKey q (H x) = k
       · rw [hk] at he
-        have := hinj _ _ (rowKey_inj_hash hlen he)
+        have := hinj _ _ hx hy (rowKey_inj_hash hlen he)
         subst this
         rw [hk, if_pos he]
       · rw [if_neg he]; exact h
 
 /-- every content-addressed write of the batch can be read back afterwards -/
-theorem find_applyW_mem {H : Bytes → Bytes} (hlen : ∀ x, (H x).length = 32)
-    (hinj : ∀ a b, H a = H b → a = b) (w : List WOp) (hw : ∀ op ∈ w, ContentPut H op) :
+theorem find_applyW_mem {H : Bytes → Bytes} {Dom : Bytes → Prop} (hlen : ∀ x, (H x).length = 32)
+    (hinj : InjOn H Dom) (w : List WOp) (hw : ∀ op ∈ w, ContentPut H Dom op) :
     ∀ (db : DB) (k x : Bytes), WOp.put k x ∈ w → (applyW db w).find k = some x := by
   induction w with
   | nil => intro db k x h; simp at h
   | cons op r ih =>
     intro db k x h
-    have hr : ∀ op ∈ r, ContentPut H op := fun o ho => hw o (List.mem_cons_of_mem _ ho)
+    have hr : ∀ op ∈ r, ContentPut H Dom op := fun o ho => hw o (List.mem_cons_of_mem _ ho)
     by_cases hin : WOp.put k x ∈ r
     · cases op with
       | put k' y => simp only [applyW]; exact ih hr _ k x hin
@@ -105,10 +109,10 @@ theorem find_applyW_mem {H : Bytes → Bytes} (hlen : ∀ x, (H x).length = 32)
         · exact h1.symm
         · exact absurd h1 hin
       subst hop
-      obtain ⟨q, hk⟩ := hw _ (List.mem_cons_self ..)
+      obtain ⟨⟨q, hk⟩, hx⟩ := hw _ (List.mem_cons_self ..)
       simp only [applyW]
       rw [hk]
-      apply find_applyW_keep hlen hinj r hr
+      apply find_applyW_keep hlen hinj r hr _ _ _ hx
       rw [find_put]; simp
 
 /-! ### what the decoder must return -/
@@ -157,31 +161,52 @@ def Stored (ver : Ver) (H : Bytes → Bytes) (get : Bytes → Option Bytes) : Tr
               some (encodeNode ver H (cs i))) ∧
          Stored ver H get (cs i) (pre ++ pk ++ [i])
 
-theorem valuePuts_content (ver : Ver) (H : Bytes → Bytes) (full : Nibs) (v : Bytes) :
-    ∀ op ∈ valuePuts ver H full v, ContentPut H op := by
+/-- `Dom` contains the encoding of every node and every hashed value of the trie -/
+def Covers (ver : Ver) (H : Bytes → Bytes) (Dom : Bytes → Prop) (t : Trie) : Prop :=
+  (∀ n, NodeOf n t → Dom (encodeNode ver H n)) ∧
+  (∀ k v, lookup t k = some v → mustBeHashed ver v = true → Dom v)
+
+theorem covers_child {ver : Ver} {H : Bytes → Bytes} {Dom : Bytes → Prop} {pk : Nibs}
+    {v : Option Bytes} {cs : Nib → Trie} (h : Covers ver H Dom (branch pk v cs)) (i : Nib) :
+    Covers ver H Dom (cs i) :=
+  ⟨fun n hn => h.1 n (nodeOf_child i hn),
+   fun k x hk hm => h.2 (pk ++ i :: k) x (by rw [lookup_branch_child]; exact hk) hm⟩
+
+theorem valuePuts_content (ver : Ver) (H : Bytes → Bytes) (Dom : Bytes → Prop) (full : Nibs) (v : Bytes)
+    (hv : mustBeHashed ver v = true → Dom v) :
+    ∀ op ∈ valuePuts ver H full v, ContentPut H Dom op := by
   unfold valuePuts
   split
-  · intro op h; simp at h; subst h; exact ⟨full, rfl⟩
+  · rename_i hm
+    intro op h; simp at h; subst h; exact ⟨⟨full, rfl⟩, hv hm⟩
   · intro op h; simp at h
 
-theorem putsOf_content (ver : Ver) (H : Bytes → Bytes) (t : Trie) :
-    ∀ pre, ∀ op ∈ putsOf ver H t pre, ContentPut H op := by
+theorem putsOf_content (ver : Ver) (H : Bytes → Bytes) (Dom : Bytes → Prop) (t : Trie) :
+    Covers ver H Dom t → ∀ pre, ∀ op ∈ putsOf ver H t pre, ContentPut H Dom op := by
   induction t with
-  | nil => intro pre op h; simp [putsOf] at h
-  | leaf pk v => intro pre; simp only [putsOf]; exact valuePuts_content ver H _ v
+  | nil => intro _ pre op h; simp [putsOf] at h
+  | leaf pk v =>
+    intro hc pre
+    simp only [putsOf]
+    exact valuePuts_content ver H Dom _ v (fun hm => hc.2 pk v (by simp) hm)
   | branch pk v cs ih =>
-    intro pre op h
+    intro hc pre op h
     simp only [putsOf, List.mem_append, List.mem_flatMap] at h
     rcases h with h | ⟨i, _, h⟩
     · cases v with
       | none => simp [optValuePuts] at h
-      | some x => exact valuePuts_content ver H _ x op h
+      | some x =>
+        exact valuePuts_content ver H Dom _ x
+          (fun hm => hc.2 pk x (by rw [lookup_branch_self]) hm) op h
     · split at h
       · simp at h
-      · rcases List.mem_append.mp h with h | h
-        · exact ih i _ op h
+      · rename_i hn
+        rcases List.mem_append.mp h with h | h
+        · exact ih i (covers_child hc i) _ op h
         · split at h
-          · simp at h; subst h; exact ⟨_, rfl⟩
+          · simp at h; subst h
+            have hne : cs i ≠ nil := fun x => hn (by rw [x]; rfl)
+            exact ⟨⟨_, rfl⟩, hc.1 _ (nodeOf_child i (nodeOf_self hne))⟩
           · simp at h
 
 /-- if every row of `putsOf` can be read back, the trie is stored -/
